@@ -163,6 +163,27 @@ def _graph(ce, prog, n, edges):
     return g
 
 
+def K15_junk_characters(rep, flow: Flow):
+    rep.rule("K15", "the Pauli-string parser rejects (raises on) every character that is not one of I, X, Y, Z - probed with the lower-case letters, digits, blanks and foreign letters, at the first, a middle and the last position of a generator - and a sign character anywhere but in front is never read as a Pauli", floor=20, exhaustive=True)
+    prog = flow.prog
+    ce = CE(prog, max_steps=20_000_000)
+    junk = ["x", "y", "z", "i", "A", "1", "0", " ", "_", "*", "Q", "+", "-"]
+    base = ["XZZ", "ZXI", "ZIX"]
+    for ch in junk:
+        for pos in range(3):
+            if ch in "+-" and pos == 0:
+                continue            # a sign in front is the documented sign
+            gen = base[0][:pos] + ch + base[0][pos + 1:]
+            data = [gen, base[1], base[2]]
+            try:
+                st = _new_stabilizer(ce, prog, data)
+            except CERaise:
+                rep.ok("K15", 1, nontrivial=(ch, pos), sample=f"{gen!r}: rejected")
+                continue
+            got = {k: (v.d if isinstance(v, Mat) else v) for k, v in st.attrs.items() if k in ("R", "S", "phases")}
+            rep.finding("K15", f"junk:{ch!r}:{pos}", f"stabilizer.py Stabilizer.__init__ accepts the generator {gen!r} (character {ch!r} at position {pos} is not a Pauli) and stores R = {got.get('R')}, S = {got.get('S')}, signs = {got.get('phases')}: an invalid request is served with a circuit for some other operator instead of being refused")
+
+
 @raises_are_findings("K13")
 def K13_matrix_form(rep, flow: Flow):
     rep.rule("K13", "matrix form: Stabilizer((R, S)) and Stabilizer((R, S, phases)) store exactly the given X part, Z part and signs (signs default to 0), and the size is the matrices' size - evaluated on asymmetric matrices of 2 and 3 qubits", floor=4, exhaustive=True)
@@ -1037,6 +1058,71 @@ def K12_local_complementation(rep, flow: Flow, tier):
         for (key, msg) in bad:
             rep.finding("K12", key, msg)
     rep.analysed["K12 evaluation steps"] = steps
+
+
+@raises_are_findings("K14")
+def K14_grouping_codecs(rep, flow: Flow):
+    """every to_<shape> / from_<shape> pair of linear_index: over its WHOLE index domain (the number of ways to split n
+    labelled qubits into blocks of the sizes the shape names) to_ yields valid, pairwise different groupings and from_
+    gives the index back"""
+    import math
+    import re as _re
+    rep.rule("K14", "grouping codecs of linear_index: for every shape and every index of its domain, to_<shape>(i) is a partition of the qubits into blocks of the shape's sizes, different indices give different groupings (so the map is onto all of them, the domain size being their number) and from_<shape>(to_<shape>(i)) = i", floor=200, exhaustive=True)
+    prog = flow.prog
+    m = prog.modules.get("linear_index")
+    if m is None:
+        raise AnalysisError("module linear_index vanished")
+    ce = CE(prog, max_steps=50_000_000)
+
+    def canon(r):
+        if not isinstance(r, Instance) or "groups" not in r.attrs:
+            return None
+        out = []
+        for lvl in r.attrs["groups"]:
+            out.append(tuple(tuple(t.attrs["data"]) if isinstance(t, Instance) else None for t in lvl))
+        return tuple(out)
+    pairs = 0
+    for name, f in sorted(m.funcs.items()):
+        mt = _re.fullmatch(r"to_(\d+)(s?)", name)
+        if not mt or ("from_" + mt.group(1) + mt.group(2)) not in m.funcs:
+            continue
+        g = m.funcs["from_" + mt.group(1) + mt.group(2)]
+        sizes = [int(ch) for ch in mt.group(1)]
+        if 0 in sizes or len(f.params) != 1:
+            continue
+        n = sum(sizes)
+        count = math.factorial(n)
+        for sz in sizes:
+            count //= math.factorial(sz)
+        for sz in set(sizes):
+            count //= math.factorial(sizes.count(sz))
+        ordered_singles = mt.group(2) == "s"
+        if ordered_singles:
+            count *= math.factorial(sizes.count(1))
+        pairs += 1
+        seen = {}
+        for i in range(count):
+            r = ce.call_func(f, [i], {})
+            c = canon(r)
+            key = f"{name}:{i}"
+            blocks = [b for lvl in (c or ()) for b in lvl]
+            flat = sorted(x for b in blocks for x in (b or ()))
+            if c is None or any(b is None for b in blocks) or sorted(len(b) for b in blocks) != sorted(sizes) or flat != list(range(n)):
+                rep.finding("K14", key, f"linear_index.py {name}({i}) = {c}: not a partition of qubits 0..{n - 1} into blocks of sizes {sizes}")
+                continue
+            ident = c if ordered_singles else tuple(sorted(tuple(sorted(b)) for b in blocks))
+            if ident in seen:
+                rep.finding("K14", key, f"linear_index.py {name}: indices {seen[ident]} and {i} decode to the same grouping {c}; with {count} indices for {count} groupings one grouping is never produced")
+                continue
+            seen[ident] = i
+            back = ce.call_func(g, [r], {})
+            if back != i:
+                rep.finding("K14", key, f"linear_index.py from_{mt.group(1)}{mt.group(2)}({name}({i})) = {back}, not {i} (grouping {c})")
+            else:
+                rep.ok("K14", 1, nontrivial=(name, i), sample=f"{name}({i}) = {c} -> {back}")
+    rep.analysed["K14 shapes (to_/from_ pairs) examined"] = pairs
+    if pairs < 10:
+        raise AnalysisError(f"linear_index: only {pairs} to_<shape>/from_<shape> pairs found (anchor vanished)")
 
 
 def _graph_problem(g, n, want_edges):
